@@ -80,6 +80,28 @@ def gen_c16(rng, tier):
         for _ in range(rng.choice([0, 1, 3])):
             ops.append(["body", rng.randint(0, 2 * p_us)])
             ops.append(["wait", 0])
+    if not marathon and rng.random() < 0.2:
+        # a second, independent NotifierDelay is alive at the same time (its own period, its own grid): the two must not
+        # influence each other
+        if rng.random() < 0.15:
+            PB = rng.choice([0.029, 0.0013, 0.07])
+        else:
+            PB, _ = _nice_seconds(rng, dyadic, 1000, 250000)
+        n = len(ops)
+        at = sorted(rng.sample(range(1, n + 1), min(n, rng.choice([3, 6, 12]))))
+        out, made, freed_b = [], False, False
+        for i, op in enumerate(ops):
+            out.append(op)
+            if (i + 1) in at:
+                if not made:
+                    out.append(["B", ["create", PB, rng.random() < 0.5]])
+                    made = True
+                elif not freed_b and rng.random() < 0.12:
+                    out.append(["B", ["free", rng.choice(["free", "exit"])]])
+                    freed_b = True
+                else:
+                    out.append(["B", ["wait", 0]])
+        ops = out
     boot = rng.choice([0, 5, 64, 100000]) * (GRID_US if dyadic else 1)
     if far:
         boot = rng.choice([50, 126]) * 86400 * 10**6 + (0 if dyadic else rng.choice([0, 7, 999_983]))
@@ -230,9 +252,25 @@ def _exec_c16(plan, world, R):
     real_wait = hal.waitForNotifierAlarm
     seam = {"calls": 0, "late": 0, "alarm": None, "t_in": None}
 
+    alarms = {}
+    real_update = hal.updateNotifierAlarm
+
+    armed = set()
+
+    def update_seam(handle, t):
+        alarms[handle] = int(t)
+        armed.add(handle)
+        return real_update(handle, t)
+
     def wait_seam(handle):
         seam["calls"] += 1
-        alarm = hs.getNextNotifierTimeout()
+        if handle not in armed or handle not in handles["live"]:
+            # no alarm is programmed on this notifier (it was consumed by an earlier wake-up, or the handle was
+            # released): the real HAL call would block for ever
+            raise Violation("C16", "wait_would_block", f"wait() blocks on HAL notifier handle {handle}, which has no alarm programmed "
+                            f"(live handles {sorted(handles['live'])}, armed {sorted(armed)})", sig="C16:wait_would_block")
+        armed.discard(handle)
+        alarm = alarms.get(handle, hs.getNextNotifierTimeout())
         seam["alarm"] = alarm
         seam["t_in"] = world.now_us()
         if world.now_us() < alarm:
@@ -243,11 +281,13 @@ def _exec_c16(plan, world, R):
         return real_wait(handle)
 
     hal.waitForNotifierAlarm = wait_seam
+    hal.updateNotifierAlarm = update_seam
     real_init, real_clean = hal.initializeNotifier, hal.cleanNotifier
     handles = {"live": set(), "cleaned": set(), "double": False}
 
     def init_seam():
         r = real_init()
+        handles["last"] = r[0]
         handles["live"].add(r[0])
         handles["cleaned"].discard(r[0])       # HAL handle values are reused after a clean
         return r
@@ -260,24 +300,33 @@ def _exec_c16(plan, world, R):
         return real_clean(h)
 
     hal.initializeNotifier, hal.cleanNotifier = init_seam, clean_seam
-    nd = None
-    old = None
-    try:
+    class Ctx:
+        """one NotifierDelay slot (plans may keep a second, independent delay alive: ops wrapped in ["B", op])"""
+        nd = None
+        old = None
         t0 = p = k = None
         freed = True
         n_before = None
         overrun_seen = False
+        handle = None
+
+    cA, cB = Ctx(), Ctx()
+    try:
         for idx, op in enumerate(plan["ops"]):
+            c = cA
+            if op[0] == "B":
+                c, op = cB, op[1]
+                R.probe("second_live_delay_ops")
             kind = op[0]
             if kind == "adv" or kind == "body":
                 world.advance(op[1])
                 R.shape.append((kind,))
             elif kind == "enter":
-                if nd is None or freed:
+                if c.nd is None or c.freed:
                     continue
                 t_before, calls_before = world.now_us(), seam["calls"]
                 try:
-                    if nd.__enter__() is not nd:
+                    if c.nd.__enter__() is not c.nd:
                         R.fail("with_block", idx, op, "__enter__ did not return the delay object")
                 except Exception as e:
                     R.fail("exception", idx, op, f"{type(e).__name__}: {e}")
@@ -286,11 +335,13 @@ def _exec_c16(plan, world, R):
                 R.probe("entered_later")
                 R.shape.append(("enter",))
             elif kind == "stale_wait":
-                if old is None:
+                if c.old is None:
                     continue
                 t_before, calls_before = world.now_us(), seam["calls"]
                 try:
-                    old.wait()
+                    c.old.wait()
+                except Violation:
+                    raise
                 except Exception as e:
                     R.fail("exception", idx, op, f"{type(e).__name__}: {e}")
                 if world.now_us() != t_before or seam["calls"] != calls_before:
@@ -298,107 +349,112 @@ def _exec_c16(plan, world, R):
                 R.probe("stale_wait_on_released_instance")
                 R.shape.append(("stale_wait",))
             elif kind == "create":
-                if nd is not None and not freed:
+                if c.nd is not None and not c.freed:
                     # (shrunk plans) one NotifierDelay is alive at a time: release the previous one first
                     try:
-                        nd.free()
+                        c.nd.free()
                     except Exception as e:
                         R.fail("exception", idx, op, f"{type(e).__name__}: {e}")
-                    freed = True
-                n_before = hs.getNumNotifiers()
-                t0 = world.now_us()
-                old = nd              # keep the released one referenced
+                    c.freed = True
+                c.n_before = hs.getNumNotifiers()
+                c.t0 = world.now_us()
+                c.old = c.nd              # keep the released one referenced
                 try:
-                    nd = NotifierDelay(op[1])
+                    c.nd = NotifierDelay(op[1])
                     if op[2]:
-                        if nd.__enter__() is not nd:
+                        if c.nd.__enter__() is not c.nd:
                             R.fail("with_block", idx, op, "__enter__ did not return the delay object")
                 except Exception as e:
                     R.fail("exception", idx, op, f"{type(e).__name__}: {e}")
-                if world.now_us() != t0:
+                if world.now_us() != c.t0:
                     R.fail("constructor_moved_time", idx, op, "creating the NotifierDelay moved the clock")
-                if hs.getNumNotifiers() != n_before + 1:
-                    R.fail("notifier_not_allocated", idx, op, f"HAL has {hs.getNumNotifiers()} notifiers, expected {n_before + 1}")
-                first = hs.getNextNotifierTimeout()
-                p = first - t0
-                if not abs(p - op[1] * 1e6) < 1:
-                    R.fail("period", idx, op, f"first alarm {first} is {p} us after creation at {t0}; the period is {op[1]} s")
-                k, freed = 0, False
+                if hs.getNumNotifiers() != c.n_before + 1:
+                    R.fail("notifier_not_allocated", idx, op, f"HAL has {hs.getNumNotifiers()} notifiers, expected {c.n_before + 1}")
+                c.handle = handles.get("last")
+                first = alarms.get(c.handle, hs.getNextNotifierTimeout())
+                c.p = first - c.t0
+                if not abs(c.p - op[1] * 1e6) < 1:
+                    R.fail("period", idx, op, f"first alarm {first} is {c.p} us after creation at {c.t0}; the period is {op[1]} s")
+                c.k, c.freed = 0, False
                 R.probe("created")
                 R.shape.append(("create",))
                 R.visit(("created",))
             elif kind == "wait":
-                if nd is None:
+                if c.nd is None:
                     continue
                 calls0, now0 = seam["calls"], world.now_us()
                 seam["late"] = op[1]
                 try:
-                    nd.wait()
+                    c.nd.wait()
+                except Violation:
+                    raise
                 except Exception as e:
                     R.fail("exception", idx, op, f"{type(e).__name__}: {e}")
                 t_ret = world.now_us()
-                R.log.append([idx, now0, seam["alarm"], t_ret, freed])
-                R.tr(f"[{idx}] wait: body finished at {now0}, alarm {seam['alarm'] if not freed else None}, returned at {t_ret}, freed={freed}")
-                if freed:
+                R.log.append([idx, now0, seam["alarm"], t_ret, c.freed])
+                R.tr(f"[{idx}] wait: body finished at {now0}, alarm {seam['alarm'] if not c.freed else None}, returned at {t_ret}, freed={c.freed}")
+                if c.freed:
                     if seam["calls"] != calls0 or t_ret != now0:
                         R.fail("wait_after_free", idx, op, "wait() after free() consulted the notifier or moved time instead of returning immediately")
                     R.probe("wait_after_free")
                     R.shape.append(("wait_freed",))
                     R.visit(("freed_wait",))
                     continue
-                k += 1
-                want_alarm = t0 + k * p
+                c.k += 1
+                want_alarm = c.t0 + c.k * c.p
                 if seam["calls"] != calls0 + 1:
                     R.fail("wait_did_not_wait", idx, op, "wait() returned without waiting on the notifier")
                 if seam["alarm"] != want_alarm:
-                    R.fail("alarm_off_grid", idx, op, f"alarm for wait #{k} is {seam['alarm']}, the grid t0 + k*P gives {want_alarm} (t0={t0}, P={p} us)")
+                    R.fail("alarm_off_grid", idx, op, f"alarm for wait #{c.k} is {seam['alarm']}, the grid t0 + k*P gives {want_alarm} (t0={c.t0}, P={c.p} us)")
                 if t_ret < want_alarm:
-                    R.fail("returned_early", idx, op, f"wait #{k} returned at {t_ret}, before t0 + k*P = {want_alarm}")
+                    R.fail("returned_early", idx, op, f"wait #{c.k} returned at {t_ret}, before t0 + k*P = {want_alarm}")
                 slept = now0 < want_alarm
                 late = op[1] if slept else 0
                 if t_ret != max(now0, want_alarm) + late:
-                    R.fail("returned_late", idx, op, f"wait #{k}: body finished at {now0}, grid instant {want_alarm}, wake-up delay {late}; returned at {t_ret}")
+                    R.fail("returned_late", idx, op, f"wait #{c.k}: body finished at {now0}, grid instant {want_alarm}, wake-up delay {late}; returned at {t_ret}")
                 cls = "slept" if slept else ("exact" if now0 == want_alarm else "overrun")
                 R.probe("wait_" + cls)
                 if cls == "overrun":
-                    overrun_seen = True
+                    c.overrun_seen = True
                     R.fault("loop_overrun")
-                elif overrun_seen and cls == "slept":
+                elif c.overrun_seen and cls == "slept":
                     R.probe("caught_up_after_overrun")
                     R.nontrivial = True
                 R.shape.append(("wait", cls, bool(late)))
                 R.visit(("wait", cls))
             elif kind == "free":
-                if nd is None or freed and op[1] != "free_twice":
+                if c.nd is None or c.freed and op[1] != "free_twice":
                     continue
                 n0 = hs.getNumNotifiers()
                 try:
                     if op[1] == "exit":
-                        nd.__exit__(None, None, None)
+                        c.nd.__exit__(None, None, None)
                     else:
-                        nd.free()
+                        c.nd.free()
                         if op[1] == "free_twice":
-                            nd.free()
+                            c.nd.free()
                 except Exception as e:
                     R.fail("exception", idx, op, f"{type(e).__name__}: {e}")
-                if not freed and hs.getNumNotifiers() != n0 - 1:
+                if not c.freed and hs.getNumNotifiers() != n0 - 1:
                     R.fail("notifier_not_released", idx, op, f"HAL still has {hs.getNumNotifiers()} active notifiers after {op[1]} (had {n0})")
-                if handles["live"]:
-                    R.fail("notifier_not_released", idx, op, f"HAL notifier handle(s) {sorted(handles['live'])} were stopped but never cleaned (leaked) by {op[1]}")
+                if c.handle in handles["live"]:
+                    R.fail("notifier_not_released", idx, op, f"HAL notifier handle {c.handle} was stopped but never cleaned (leaked) by {op[1]}")
                 if handles["double"]:
                     R.fail("notifier_double_release", idx, op, "the same HAL notifier handle was cleaned twice")
-                freed = True
+                c.freed = True
                 R.probe("freed_by_" + op[1])
                 R.shape.append(("free", op[1]))
                 R.visit(("freed",))
     finally:
         hal.waitForNotifierAlarm = real_wait
+        hal.updateNotifierAlarm = real_update
         hal.initializeNotifier, hal.cleanNotifier = real_init, real_clean
-        if nd is not None:
-            try:
-                nd.free()
-            except Exception:
-                pass
+        for c in (cA, cB):
+            if c.nd is not None:
+                try:
+                    c.nd.free()
+                except Exception:
+                    pass
 
 
 # ------------------------------------------------------------------ C19
